@@ -1315,6 +1315,96 @@ def run_c06_glued_removals(ctx: common.Ctx):
             ctx.case({'text': text, 'removed': hist}, nontrivial=bool(hist))
 
 
+GLUED_LIST_TEXTS = [
+    # (text, attribute of the first directive holding the raw list)
+    ('2000-01-01 custom "x" 1 "s"2\n', 'raw_values'),
+    ('2000-01-01 custom "x" Assets:A "s"B:C\n', 'raw_values'),
+    ('2000-01-01 custom "x" TRUE "s"FALSE 3\n', 'raw_values'),
+    ('2000-01-01 custom "x" 1 "s""t" 2\n', 'raw_values'),
+    ('2000-01-01 custom "x" "a""s"2 1\n', 'raw_values'),
+    ('2000-01-01 * "n" #a ^l#b ^m\n', 'raw_tags_links'),
+    ('2000-01-01 open Assets:A USD,EUR,CAD;c\n', 'raw_currencies'),
+    ('2000-01-01 open Assets:A USD ,EUR, CAD ;c\n', 'raw_currencies'),
+]
+
+
+def run_c06_glued_list_removals(ctx: common.Ctx):
+    """Directed: items of a repeated field written right against the NEXT item (legal where the lexer needs no blank:
+    `"s"2`, `^l#b`, `USD,EUR;c`). Every item is removed on its own (pop through the raw list) from a fresh parse, and
+    all of them front to back / back to front; after every removal the printed text must re-parse to the model.
+    One shape is the recorded finding C06:list-item-removed-next-to-glued-item: the item removed from a list whose
+    separators are blanks was glued to its right neighbour, _del_tokens takes the blanks in front of it, and the two
+    neighbours that the blanks kept apart now lex as ONE token (`1 "s"2` -> `12`). Anything else is reported."""
+    def shape_is_finding(text, before, after, hist_last):
+        # one deleted span = blanks + item, the item touched the next character, both new neighbours are not blank
+        if len(after) >= len(before):
+            return False
+        i = 0
+        while i < len(after) and before[i] == after[i]:
+            i += 1
+        j = 0
+        while j < len(after) - i and before[len(before) - 1 - j] == after[len(after) - 1 - j]:
+            j += 1
+        if i + j != len(after) or i == 0 or j == 0:
+            return False
+        d = before[i:len(before) - j]
+        a, b = before[i - 1], before[len(before) - j]
+        return bool(d) and d[0] in ' \t' and not d[-1].isspace() and not a.isspace() and not b.isspace() \
+            and a not in ',;' and b not in ',;'
+
+    def judge(f, text, attr, hist, before):
+        out = treewalk.text_of(f)
+        w = {'text': text, 'list': attr, 'history': list(hist), 'printed': out}
+        hp = health.problems(f)
+        if hp:
+            ctx.monitor_failure(f'C06:health:{hp[0][0]}', f'after {hist}: {hp[0][1]}', w)
+            return False
+        g = gen_docs.parse_ok(out, True)
+        d = None if g is None else diff(treewalk.content(f), treewalk.content(g))
+        if g is None or d:
+            known = shape_is_finding(text, before, out, hist[-1])
+            sig = 'C06:list-item-removed-next-to-glued-item' if known else \
+                ('C06:printed-text-rejected' if g is None else classify_c06(d, out, f))
+            ctx.monitor_failure(sig, f'after {hist} on {text!r} the printed document {out!r} ' +
+                                ('no longer parses' if g is None else f'differs from the model at {d}'), w)
+            return False
+        return True
+
+    for text, attr in GLUED_LIST_TEXTS:
+        f0 = gen_docs.parse_ok(text, True)
+        if f0 is None:
+            ctx.count('glued_texts_rejected_by_parser')
+            continue
+        n = len(getattr(f0.raw_directives[0], attr))
+        for k in range(n):
+            f = gen_docs.parse_ok(text, True)
+            xs = getattr(f.raw_directives[0], attr)
+            before = treewalk.text_of(f)
+            try:
+                xs.pop(k)
+            except Exception:
+                ctx.count('glued_list_removals_refused')
+                continue
+            ctx.count('glued_list_removals')
+            judge(f, text, attr, [f'{attr}.pop({k})'], before)
+            ctx.case({'text': text, 'pop': k}, nontrivial=True)
+        for idx in (0, -1):
+            f = gen_docs.parse_ok(text, True)
+            xs = getattr(f.raw_directives[0], attr)
+            hist = []
+            while len(xs):
+                before = treewalk.text_of(f)
+                try:
+                    xs.pop(idx)
+                except Exception:
+                    break
+                hist.append(f'{attr}.pop({idx})')
+                ctx.count('glued_list_removals')
+                if not judge(f, text, attr, hist, before):
+                    break
+            ctx.case({'text': text, 'pops': hist}, nontrivial=bool(hist))
+
+
 def run_c06_whole_field(ctx: common.Ctx):
     """Directed: every view of a repeated field is read first (so that all of them are cached), then the whole
     field is replaced through its raw property by a free-standing wrapper with other contents (a deep copy of
